@@ -79,6 +79,46 @@ func TestC12(t *testing.T) {
 		n = 2500
 	}
 	withCfg("sha", func(h tree.HashFn) {
+		emitSets := func(ty *Ty, v *Val, sets [][]uint64, ops []hop) {
+			for _, set := range sets {
+				gs := make([]string, len(set))
+				for i, x := range set {
+					gs[i] = hx(x)
+				}
+				for _, o := range ops {
+					obs := guard(func() string {
+						// a fresh full view per case (mutations must not accumulate)
+						fv, err := buildView(ty, v)
+						if err != nil {
+							return "summ=ERR"
+						}
+						back := fv.Backing()
+						for _, x := range set {
+							link, err := tree.SummaryInto(back, tree.Gindex64(x), h)
+							if err != nil {
+								return "summ=ERR"
+							}
+							back, err = link()
+							if err != nil {
+								return "summ=ERR"
+							}
+						}
+						pv, err := ty.Def().ViewFromBacking(back, nil)
+						if err != nil {
+							return "summ=ERR"
+						}
+						proot := rootHex(rawRoot(back, h))
+						fullRes := singleOp(ty, fv, o, h)
+						partRes := singleOp(ty, pv, o, h)
+						return fmt.Sprintf("summ=OK proot=%s full=%s part=%s", proot, fullRes, partRes)
+					})
+					if obs == "PANIC" {
+						obs = "summ=PANIC"
+					}
+					out.emit("p"+fmt.Sprint(len(set)), "c12", []string{"sha", ty.Sexp(), v.Sexp(), "(" + strings.Join(gs, " ") + ")", c12OpSexp(o)}, obs)
+				}
+			}
+		}
 		g := &gen{r: newRng(12), noBool: true, maxElem: 8}
 		hg := &histGen{g: g, r: g.r}
 		for k := 0; k < n; k++ {
@@ -144,44 +184,67 @@ func TestC12(t *testing.T) {
 					}
 				}
 			}
-			for _, set := range sets {
-				gs := make([]string, len(set))
-				for i, x := range set {
-					gs[i] = hx(x)
-				}
-				for _, o := range ops {
-					obs := guard(func() string {
-						// a fresh full view per case (mutations must not accumulate)
-						fv, err := buildView(ty, v)
-						if err != nil {
-							return "summ=ERR"
+			emitSets(ty, v, sets, ops)
+		}
+		// lists whose tail is all zero under a summary that therefore EQUALS a zero-subtree root:
+		// appends / pops / sets there must fail or act exactly as on the full tree
+		gz := &gen{r: newRng(1212), noBool: true, maxElem: 3}
+		for _, w := range []uint64{1, 2, 8, 32} {
+			e := &Ty{Kind: "u", N: w}
+			per := 32 / w
+			for _, lim := range []uint64{4 * per, 1 << 20} {
+				ty := &Ty{Kind: "list", Elem: e, N: lim}
+				for _, nz := range []uint64{0, per, 2 * per} {
+					for _, z := range []uint64{1, per - 1, per + 1} {
+						if z == 0 || (nz+z)%per == 0 || nz+z > lim {
+							continue
 						}
-						back := fv.Backing()
-						for _, x := range set {
-							link, err := tree.SummaryInto(back, tree.Gindex64(x), h)
-							if err != nil {
-								return "summ=ERR"
+						v := &Val{Kind: "seq"}
+						for i := uint64(0); i < nz; i++ {
+							x := gz.val(e)
+							if x.U.Sign() == 0 {
+								x.U.SetInt64(1)
 							}
-							back, err = link()
-							if err != nil {
-								return "summ=ERR"
-							}
+							v.Seq = append(v.Seq, x)
 						}
-						pv, err := ty.Def().ViewFromBacking(back, nil)
+						for i := uint64(0); i < z; i++ {
+							v.Seq = append(v.Seq, &Val{Kind: "n", U: bigInt(0)})
+						}
+						full, err := buildView(ty, v)
 						if err != nil {
-							return "summ=ERR"
+							continue
 						}
-						proot := rootHex(rawRoot(back, h))
-						fullRes := singleOp(ty, fv, o, h)
-						partRes := singleOp(ty, pv, o, h)
-						return fmt.Sprintf("summ=OK proot=%s full=%s part=%s", proot, fullRes, partRes)
-					})
-					if obs == "PANIC" {
-						obs = "summ=PANIC"
+						var gis []uint64
+						nodeGindices(full.Backing(), 1, &gis)
+						var sets [][]uint64
+						for _, gi := range gis {
+							sets = append(sets, []uint64{gi})
+						}
+						if !thorough() && len(sets) > 24 {
+							sets = sets[:24]
+						}
+						lit := srcSpec{kind: "lit", t: e, v: &Val{Kind: "n", U: bigInt(7)}}
+						emitSets(ty, v, sets, []hop{{kind: "append", src: lit}, {kind: "pop"}, {kind: "set", i: nz + z - 1, src: lit}, {kind: "elem", i: nz + z - 1}, {kind: "ro"}})
 					}
-					out.emit("p"+fmt.Sprint(len(set)), "c12", []string{"sha", ty.Sexp(), v.Sexp(), "(" + strings.Join(gs, " ") + ")", c12OpSexp(o)}, obs)
 				}
 			}
+		}
+		bl := &Ty{Kind: "bitlist", N: 600}
+		for _, ln := range []int{3, 255, 257, 300} {
+			v := &Val{Kind: "bits", Bits: make([]bool, ln)}
+			v.Bits[0] = true
+			full, err := buildView(bl, v)
+			if err != nil {
+				continue
+			}
+			var gis []uint64
+			nodeGindices(full.Backing(), 1, &gis)
+			var sets [][]uint64
+			for _, gi := range gis {
+				sets = append(sets, []uint64{gi})
+			}
+			litb := srcSpec{kind: "lit", t: &Ty{Kind: "bool"}, v: &Val{Kind: "b", B: true}}
+			emitSets(bl, v, sets, []hop{{kind: "append", src: litb}, {kind: "pop"}, {kind: "set", i: uint64(ln - 1), src: litb}, {kind: "elem", i: uint64(ln - 1)}})
 		}
 	})
 }
